@@ -57,6 +57,7 @@ func runHook(executeable, store string) {
 	cmd.Stderr = nil
 	cmd.Stdin = nil
 	cmd.Env = append(os.Environ(), fmt.Sprintf("WHAWTY_AUTH_STORE=%s", store))
+	verifEvent("hooks.exec", executeable, store)
 
 	if err := cmd.Start(); err != nil {
 		wl.Printf("Hooks: error calling '%s': %v", executeable, err)
@@ -90,6 +91,7 @@ func runHook(executeable, store string) {
 }
 
 func (h *HooksCaller) runAllHooks() {
+	verifEvent("hooks.run", h.store, h.pending)
 	dir, err := os.Open(h.dir)
 	if err != nil {
 		wl.Printf("Hooks: error opening hooks directory: %v", err)
@@ -147,19 +149,23 @@ func (h *HooksCaller) run() {
 	t := time.NewTimer(h.rateLimit)
 	t.Stop()
 	for {
+		verifGate("hooks.loop")
 		select {
 		case <-t.C:
+			verifEvent("hooks.timer", h.pending)
 			if h.pending > 1 {
 				h.runAllHooks()
 			}
 			h.pending = 0
 		case <-h.Notify:
+			verifEvent("hooks.notify", h.pending)
 			if h.pending == 0 {
 				h.runAllHooks()
 				t.Reset(h.rateLimit)
 			}
 			h.pending++
 		case s := <-h.NewStore:
+			verifEvent("hooks.newstore", s)
 			h.store = s
 		}
 	}
